@@ -182,6 +182,17 @@ def run_case(case, cl=None):
                 emits += 1
                 changed_since_emit = False
                 check_all(where, only_memory=True)
+            elif name == "other_builder":
+                ob = gscrib.GCodeBuilder(line_endings="\\r\\n", comment_symbols="(")
+                orec = recorder_class()()
+                ob.add_writer(orec)
+                ob.write("G1 X99 ; other builder")
+                ob.comment("other")
+                if bytes(orec.data) != b"G1 X99 ; other builder\r\n( other )\r\n":
+                    raise Violation(f"{where}: a second builder's own writer received "
+                                    f"{bytes(orec.data)!r}")
+                cl.add("other_builder_active")
+                check_all(where, only_memory=True)
             elif name == "set_eol":
                 # the line ending is changed on the live builder
                 cfg2, eol = eol_of(op["eol"])
@@ -265,7 +276,8 @@ def strategy(n):
                   st.integers(-50, 50)).map(
             lambda t: {"op": "call", "call": t[0], "text": t[1], "v": float(t[2])}),
         st.just({"op": "flush"}), st.just({"op": "teardown"}),
-        st.sampled_from(["lf", "crlf", "cr"]).map(lambda e: {"op": "set_eol", "eol": e}))
+        st.sampled_from(["lf", "crlf", "cr"]).map(lambda e: {"op": "set_eol", "eol": e}),
+        st.just({"op": "other_builder"}))
     return st.fixed_dictionaries({
         "eol": st.sampled_from(["lf", "crlf", "cr", "rawlf", "rawcrlf"]),
         "ops": st.lists(op, min_size=1, max_size=n)})
